@@ -397,12 +397,65 @@ fn refl_check_mode(c: &Refl, st: &mut Stats, two: bool) -> Check {
     Ok(())
 }
 
+// ---------------------------------------------------------------------------------------
+// exhaustive port sweep: reply-typed datagrams are ignored on every destination / source port
+
+#[derive(Clone, Debug, Serialize, Deserialize, PartialEq)]
+pub struct PortSweep {
+    pub v4: bool,
+    pub msg: u8,
+    pub dport: u16,
+    pub sport: u16,
+}
+
+fn golden_marked(i: u8) -> (Vec<u8>, &'static str) {
+    match i % 5 {
+        0 => {
+            let q = DnsQuery { id: 0x4242, flags: 0x0100, questions: vec![DnsQuestion { labels: vec![Hex(b"example".to_vec()), Hex(b"org".to_vec())], qtype: 1, qclass: 1 }] };
+            set_marker_named(&AppReq::Dns(q), 1)
+        }
+        1 => {
+            let q = DnsQuery { id: 7, flags: 0x0000, questions: vec![DnsQuestion { labels: vec![Hex(b"a".to_vec())], qtype: 1, qclass: 1 }] };
+            set_marker_named(&AppReq::Dns(q), 0)
+        }
+        2 => set_marker_named(&AppReq::Stun(StunReq { mtype: 1, magic: true, id: [9; 16], attrs: vec![] }), 1),
+        3 => set_marker_named(&AppReq::Stun(StunReq { mtype: 1, magic: false, id: [3; 16], attrs: vec![] }), 0),
+        _ => set_marker_named(&AppReq::Rpc(RpcCall { xid: 0x1234_5678, rpcvers_low: 2, program: 100000, version: 2, procedure: 3, cred_flavor: 0, cred: Hex(vec![]), verf_flavor: 0, verf: Hex(vec![]), args: Hex(vec![]) }), 0),
+    }
+}
+
+fn set_marker_named(a: &AppReq, variant: u8) -> (Vec<u8>, &'static str) {
+    let (b, _, n) = set_marker(a, false, variant);
+    (b, n)
+}
+
+fn port_sweep_check(c: &PortSweep, st: &mut Stats) -> Check {
+    st.eval();
+    st.frames(1);
+    let mac = [0x02, 0x12, 0x34, 0x56, 0x78, 0x9a];
+    let cfg = Cfg::plain(mac);
+    let net = if c.v4 {
+        Net { cmac: [2, 0, 0, 0, 0, 5], dmac: mac, cip: IpAddr::V4(std::net::Ipv4Addr::new(198, 51, 100, 23)), sip: IpAddr::V4(std::net::Ipv4Addr::new(203, 0, 113, 77)) }
+    } else {
+        Net { cmac: [2, 0, 0, 0, 0, 5], dmac: mac, cip: IpAddr::V6(std::net::Ipv6Addr::new(0x2001, 0xdb8, 0, 0, 0, 0, 0, 0x23)), sip: IpAddr::V6(std::net::Ipv6Addr::new(0x2001, 0xdb8, 0, 0, 0, 0, 0, 0x77)) }
+    };
+    let sut = Sut::new(&cfg);
+    let (m, name) = golden_marked(c.msg);
+    let f = udp_frame(&net, c.sport, c.dport, &m);
+    st.nontrivial_hash(fnv(&f));
+    match sut.frame(&f) {
+        Out::Silence => Ok(()),
+        Out::Reply(r) => vfail!("{} datagram (reply-typed, no request of another protocol) from port {} to port {} was answered: {} -> {}", name, c.sport, c.dport, hex(&m[..m.len().min(60)]), hex(&r[..r.len().min(120)])),
+        Out::Panic(p) => Err(Failure::keyed(p.key(), format!("panic: {} {}", p.file, p.msg))),
+    }
+}
+
 impl Prop for C12 {
     fn id(&self) -> &'static str {
         "C12"
     }
     fn rule(&self) -> &'static str {
-        "twin construction per protocol: a request from the protocol's generator and the same bytes with the protocol's reply marker set — ARP operation != 1, ICMP type 0 / ICMPv6 129 / neighbour advertisement, TCP exactly SYN|ACK and exactly RST (any seq/ack/ports, with and without payload), DNS QR=1 (questions only; with answers), STUN indication / success / error class (with and without magic cookie), SMB1 flags bit 7, SMB2 flags bit 0, ONC-RPC msg_type 1 over UDP and TCP (application messages wrapped in valid UDP or a handshaken TCP flow). Oracle: the marked message is not answered by its own protocol's responder (independent classifier); any other answer must be recognisably another protocol's (counted as cross_protocol). Reflection: answerable requests (ARP, echo, NS, SYN, DNS/STUN/RPC over UDP incl. attacker-chosen STUN transaction ids, SMB/RPC/DNS/STUN over TCP) sent from the responder's own MAC with no address lists, the reply bounced back verbatim up to depth 6; at most 2 further replies. Non-trivial = marker-cleared twin answered by that protocol / the request was answered; distinct by hash."
+        "twin construction per protocol: a request from the protocol's generator and the same bytes with the protocol's reply marker set — ARP operation != 1, ICMP type 0 / ICMPv6 129 / neighbour advertisement, TCP exactly SYN|ACK and exactly RST (any seq/ack/ports, with and without payload), DNS QR=1 (questions only; with answers), STUN indication / success / error class (with and without magic cookie), SMB1 flags bit 7, SMB2 flags bit 0, ONC-RPC msg_type 1 over UDP and TCP (application messages wrapped in valid UDP or a handshaken TCP flow). Oracle: the marked message is not answered by its own protocol's responder (independent classifier); any other answer must be recognisably another protocol's (counted as cross_protocol). Reflection: answerable requests (ARP, echo, NS, SYN, DNS/STUN/RPC over UDP incl. attacker-chosen STUN transaction ids, SMB/RPC/DNS/STUN over TCP) sent from the responder's own MAC with no address lists, the reply bounced back verbatim up to depth 6; at most 2 further replies. Non-trivial = marker-cleared twin answered by that protocol / the request was answered; distinct by hash. Also: the reply-typed application message delivered as a LATER segment of a TCP flow that a valid request of the same protocol has already identified (the responder then sees it without a signature in front); and an exhaustive sweep of all 65536 destination and all 65536 source UDP ports over 5 reply-typed datagrams on both IP versions (silence required)."
     }
     fn run(&self, ctx: &mut RunCtx) {
         let n = ctx.share(ctx.tier.n(400_000, 6_000_000));
@@ -410,12 +463,34 @@ impl Prop for C12 {
         let m = ctx.share(ctx.tier.n(300_000, 4_000_000));
         ctx.run_generated("reflect", m, refl_strategy(), refl_check);
         ctx.run_generated("reflect2", m, refl_strategy(), |c, st| refl_check_mode(c, st, true));
+        // every destination port and every source port, 5 reply-typed datagrams, both IP versions
+        let mut idx = 0u64;
+        for v4 in [true, false] {
+            for msg in 0..5u8 {
+                for p in 0..=65535u16 {
+                    idx += 1;
+                    if !ctx.owns(idx) {
+                        continue;
+                    }
+                    let a = PortSweep { v4, msg, dport: p, sport: 40000 };
+                    let r = port_sweep_check(&a, ctx.st);
+                    ctx.run_one("ports", &a, r);
+                    let b = PortSweep { v4, msg, dport: 33333, sport: p };
+                    let r = port_sweep_check(&b, ctx.st);
+                    ctx.run_one("ports", &b, r);
+                }
+            }
+        }
+        if ctx.worker == 0 {
+            ctx.st.exhaustive_parts.push("UDP ports: all 65536 destination ports and all 65536 source ports x 5 reply-typed datagrams (DNS response with answers, DNS QR=1, STUN success with cookie, STUN indication, ONC-RPC reply) x {IPv4, IPv6}".into());
+        }
     }
     fn replay(&self, stream: &str, case: &Value, st: &mut Stats) -> Check {
         let bad = |e: serde_json::Error| Failure::new(format!("bad case: {}", e));
         match stream {
             "reflect" => refl_check(&serde_json::from_value(case.clone()).map_err(bad)?, st),
             "reflect2" => refl_check_mode(&serde_json::from_value(case.clone()).map_err(bad)?, st, true),
+            "ports" => port_sweep_check(&serde_json::from_value(case.clone()).map_err(bad)?, st),
             _ => check(&serde_json::from_value(case.clone()).map_err(bad)?, st),
         }
     }
